@@ -267,6 +267,27 @@ def _corpus_preemptions(mod, tier, shard, nshards, col):
                     c = dict(base, sched={'mode': 'sparse', 'pre': [[dec, to]]})
                     col.add(c, mod.run_case(c))
                     col.stats['single_preemptions'] = col.stats.get('single_preemptions', 0) + 1
+        # delay injection: the thread that is about to execute the line event with step number s is descheduled for
+        # d virtual seconds (only for checks whose oracle does not measure promptness: opt-in through 'stalls')
+        if cfg.get('stalls'):
+            ns = int(res.stats.get('steps', 0))
+            for step in range(1, min(ns + 2, cfg.get('max_steps', {'quick': 700, 'thorough': 4000})[tier])):
+                for dur in cfg['stalls']:
+                    k += 1
+                    if k % nshards == shard:
+                        c = dict(base, sched={'mode': 'stall', 'at': [[step, dur]]})
+                        col.add(c, mod.run_case(c))
+                        col.stats['single_stalls'] = col.stats.get('single_stalls', 0) + 1
+        # staggered delays at one line (check-then-act windows): the first thread to reach line L is held there for d1,
+        # the second for d2 - for every line the base run executed (the harness reports them in stats['lines'])
+        if cfg.get('stagger') and res.stats.get('lines'):
+            for f, ln in res.stats['lines']:
+                for d1, d2 in cfg['stagger']:
+                    k += 1
+                    if k % nshards == shard:
+                        c = dict(base, sched={'mode': 'stall', 'at': [[f, ln, 0, d1], [f, ln, 1, d2]]})
+                        col.add(c, mod.run_case(c))
+                        col.stats['staggered_stalls'] = col.stats.get('staggered_stalls', 0) + 1
         if tier == 'thorough':
             for dec in range(1, lim):
                 for dec2 in range(dec + 1, min(dec + 1 + cfg['window'], lim + cfg['window'])):
